@@ -134,7 +134,8 @@ AllocFail(op, k, g) ==
            ELSE {Out(<<ECtor(n1, g.t, "value", 0, g.v), EDtor(n1, g.t)>>, AllocRes, St)}
     ELSE IF a[j] >= UNT /\ j # k THEN {Out(<<>>, AllocRes, St)}
     ELSE {}
-Ref(op, k, g) == Ref0(op, k, g) \cup AllocFail(op, k, g)
+(* a call on an any expression (ConstructFrom / AssignFrom) has the outcomes of the operation its category selects *)
+Ref(op, k, g) == Ref0(EffOp(op, g), k, g) \cup AllocFail(EffOp(op, g), k, g)
 
 Do(op, k, g) ==
     /\ Pre(op, k, g)
@@ -158,6 +159,10 @@ NCopyConstruct == \E k \in Anys, f \in Fuses, af \in AFuses, j \in Anys : Do("Co
 NMoveConstruct == \E k \in Anys, f \in Fuses, j \in Anys : Do("MoveConstruct", k, [j |-> j, fuse |-> f])
 NCopyAssign  == \E k \in Anys, f \in Fuses, af \in AFuses, j \in Anys : Do("CopyAssign", k, [j |-> j, fuse |-> f, afuse |-> af])
 NMoveAssign  == \E k \in Anys, f \in Fuses, j \in Anys : Do("MoveAssign", k, [j |-> j, fuse |-> f])
+NConstructFrom == \E k \in Anys, f \in Fuses, af \in AFuses, j \in Anys, c \in SrcCats :
+                    (c = "rv" => af = 0) /\ Do("ConstructFrom", k, [j |-> j, cat |-> c, fuse |-> f, afuse |-> af])
+NAssignFrom  == \E k \in Anys, f \in Fuses, af \in AFuses, j \in Anys, c \in SrcCats :
+                    (c = "rv" => af = 0) /\ Do("AssignFrom", k, [j |-> j, cat |-> c, fuse |-> f, afuse |-> af])
 NSwap        == \E k \in Anys, f \in Fuses, j \in Anys : Do("Swap", k, [j |-> j, fuse |-> f])
 NStdSwap     == \E k \in Anys, f \in Fuses, j \in Anys : Do("StdSwap", k, [j |-> j, fuse |-> f])
 NAReset      == \E k \in Anys, f \in Fuses : Do("AReset", k, [fuse |-> f])
@@ -171,6 +176,7 @@ NCast        == \E k \in Anys, f \in Fuses, t \in CastTargets, fm \in MCCastForm
 NSetVia      == \E k \in Anys, f \in Fuses, t \in Types, v \in Vals : Do("SetVia", k, [t |-> t, v |-> v, fuse |-> f])
 
 Next == \/ NDefaultConstruct \/ NConstruct \/ NAssignValue \/ NCopyConstruct \/ NMoveConstruct \/ NCopyAssign \/ NMoveAssign
+        \/ NConstructFrom \/ NAssignFrom
         \/ NSwap \/ NStdSwap \/ NAReset \/ NAClear \/ NDestroy \/ NDestroyIf \/ NHasValue \/ NEmpty \/ NType \/ NCast \/ NSetVia
 
 (* per-operation transition counts are collected from these lines; "u" marks a call on an any holding an untracked payload *)
